@@ -12,9 +12,11 @@ namespace Bytes
 def toNatBE (b : Bytes) : Nat := b.foldl (fun acc x => acc * 256 + x.toNat) 0
 
 /-- minimal unsigned big-endian bytes, `0 ↦ []` (num-bigint `to_bytes_be` minus its `[0]` for zero). -/
-def ofNatBE (n : Nat) : Bytes :=
-  if _h : n = 0 then [] else ofNatBE (n / 256) ++ [UInt8.ofNat (n % 256)]
-decreasing_by omega
+def ofNatBEAux : Nat → Nat → Bytes
+  | 0, _ => []
+  | fuel+1, n => if n = 0 then [] else ofNatBEAux fuel (n / 256) ++ [UInt8.ofNat (n % 256)]
+
+def ofNatBE (n : Nat) : Bytes := ofNatBEAux n n
 
 /-- fixed-width big-endian (low `k` bytes of `n`). -/
 def ofNatWidth : (k : Nat) → Nat → Bytes
@@ -36,19 +38,16 @@ def negWidth (m : Nat) : Nat :=
     | fuel+1 => if m ≤ 2 ^ (8 * k - 1) then k else go fuel (k + 1)
   go (m + 1) 1
 
+/-- sign byte for non-negative numbers: `[] ↦ [0]`, a leading byte ≥ 0x80 gets a 0 in front. -/
+def posBytes (b : Bytes) : Bytes :=
+  match b with
+  | [] => [0]
+  | x :: _ => if x.toNat ≥ 128 then 0 :: b else b
+
 /-- `u8_from_number` / `BigInt::to_signed_bytes_be`: minimal two's complement, `0 ↦ [0]`. -/
-def ofInt (i : Int) : Bytes :=
-  match i with
-  | .ofNat 0 => [0]
-  | .ofNat n =>
-    let b := ofNatBE n
-    match b with
-    | [] => [0]
-    | x :: _ => if x.toNat ≥ 128 then 0 :: b else b
-  | .negSucc n =>
-    let m := n + 1
-    let k := negWidth m
-    ofNatWidth k (256 ^ k - m)
+def ofInt : Int → Bytes
+  | .ofNat n => posBytes (ofNatBE n)
+  | .negSucc n => ofNatWidth (negWidth (n + 1)) (256 ^ negWidth (n + 1) - (n + 1))
 
 /-- clvmr's / `bigint_to_bytes_clvm`: minimal two's complement with `0 ↦ []`. -/
 def ofIntClvm (i : Int) : Bytes := if i = 0 then [] else ofInt i
